@@ -848,3 +848,38 @@ pub fn pb_rep_int32_r1<const PACKED: bool, const L: usize>() {
     kani::cover!(true, "reached end");
     core::mem::forget(out);
 }
+
+/// (w) ordered map<int32, string> with ONE entry whose value is 130 bytes long: the entry's own
+/// length prefix needs two bytes (encoded_len must follow the body length, not the entry count)
+#[cfg(kani)]
+pub fn pb_btree_map_w_long<const WHICH: u8>() {
+    use std::collections::BTreeMap;
+    let tag = 4u32;
+    let k: i32 = kani::any();
+    kani::assume(k > 0 && k < 128);
+    let mut content = [b'a'; 130];
+    let h: [u8; 2] = kani::any();
+    kani::assume(h[0] < 0x80 && h[1] < 0x80);
+    content[0] = h[0];
+    content[129] = h[1];
+    let leaked: &'static [u8; 130] = Box::leak(Box::new(content));
+    let v = String::from(unsafe { core::str::from_utf8_unchecked(&leaked[..]) });
+    let mut m: BTreeMap<i32, String> = BTreeMap::new();
+    m.insert(k, v);
+    let mut arr = [0u8; 160];
+    let n;
+    let el;
+    {
+        let mut w: &mut [u8] = &mut arr[..];
+        enc::btree_map::encode(enc::int32::encode::<&mut [u8], i32>, enc::int32::encoded_len::<i32>, enc::string::encode::<&mut [u8], String>, enc::string::encoded_len::<String>, tag, &m, &mut w);
+        el = enc::btree_map::encoded_len(enc::int32::encoded_len::<i32>, enc::string::encoded_len::<String>, tag, &m);
+        n = 160 - w.len();
+    }
+    chk!(WHICH == C05, n == el, "C05: encoded_len equals bytes written (map entry longer than 127 bytes)");
+    // key(1) + len(2: 2 + 2 + 130 = 134 -> 0x86 0x01) + [08 k] + [12 82 01 <130 bytes>]
+    let good = n == 1 + 2 + 2 + 3 + 130 && arr[0] == 0x22 && arr[1] == 0x86 && arr[2] == 0x01 && arr[3] == 0x08 && arr[4] == k as u8
+        && arr[5] == 0x12 && arr[6] == 0x82 && arr[7] == 0x01 && arr[8] == h[0] && arr[137] == h[1];
+    chk!(WHICH == C06, good, "C06: long map entry equals the reference encoding");
+    kani::cover!(true, "reached end");
+    core::mem::forget(m);
+}
